@@ -38,7 +38,9 @@ SBumps   == {<<"int", k>> : k \in {-3, -1, 1, 2, 3}} \cup {<<"td", x>> : x \in {
             \cup {T1(1, "d"), T1(-1, "d"), T1(1, "w"), T1(1, "m"), T1(-1, "m"), T1(12, "h"), T2(1, "w", -1, "d")}
             \cup BBumps \cup DependentBumps
 InUniverse(c) == CaseInDomain(c[1], c[2], c[3]) /\ Steady(c[1], c[2], c[3])
-SCalls   == {c \in {<<w[1], w[2], b>> : w \in SWindows, b \in SBumps} : InUniverse(c)}
+\* (Keep(S, P): the filtered set built once as an enumerated value - TLC re-evaluates the predicate of {x \in S : P(x)} at every use)
+Keep(S, P(_)) == UNION {IF P(x) THEN {x} ELSE {} : x \in S}
+SCalls   == Keep({<<w[1], w[2], b>> : w \in SWindows, b \in SBumps}, InUniverse)
 HasB(b)  == b[1] = "tenor" /\ \E i \in 1..Len(b[2]) : b[2][i][2] = "b"
 BCalls   == {c \in SCalls : HasB(c[3])}
 \* holidays that fall inside the windows (Tue 2 Jan, Fri 5 Jan, Wed 3 Jan, Fri 2 Feb, Mon 5 Feb 2001)
@@ -52,7 +54,7 @@ Mutations == {"append", "pop", "clear", "reverse"}
 \* (the model-checked sessions draw on a part of the universe: every state has |MCalls| successors)
 MCBumps  == DependentBumps \cup {<<"int", 1>>, <<"int", -1>>, <<"int", 2>>, <<"td", <<1, 0, 0>>>>, T1(1, "d"), T1(1, "m"),
                                  T1(1, "b"), T1(-1, "b"), T1(2, "b")}
-MCalls   == {c \in SCalls : c[3] \in MCBumps /\ (Scope = "quick" => c[1][1] \in {A1, A3, A0 + 7})}
+MCalls   == Keep(SCalls, LAMBDA c : c[3] \in MCBumps /\ (Scope = "quick" => c[1][1] \in {A1, A3, A0 + 7}))
 MCEdits  == {<<"set_holidays", H1>>, <<"set_weekend", {4, 5}>>, <<"add_inplace", H2>>, <<"reset">>, <<"named", H1, {4, 5}>>}
 MCMutations == {"append", "clear"}
 Init == SInit /\ hist = <<>>
@@ -142,18 +144,24 @@ NextScript == /\ st = "idle" /\ st' = "done"
 \* ------------------------------------------------------------- simulated longer sessions ---
 \* (run with -simulate -depth SimLen + 1): every action appends its record; the finished session is printed
 SimLen == MaxCalls
-InitSim == SInit /\ hist = <<>>
-Finished(h) == Len(h) = SimLen => PrintT(ToJson([hist |-> [i \in DOMAIN h |-> Rec(h[i])]]))
-\* (the simulator draws the next step itself - RandomElement, seeded by -seed - instead of enumerating all |SCalls| successors;
-\* what a call returns is not needed here: the printed record carries the outcomes the law accepts)
+\* The simulator draws the next step itself (RandomElement, seeded by -seed) instead of enumerating all |SCalls| successors.
+\* The draw is kept in `cur` (unused by sessions otherwise) so that one step reads ONE draw.  What a call returns is not
+\* needed here: the printed record carries the outcomes the law accepts.
+Draw == <<RandomElement(SCalls), RandomElement(SEdits), RandomElement(Mutations), RandomElement(0..5)>>
+InitSim == /\ t0 = <<>> /\ t1 = <<>> /\ bump = <<>> /\ cur = Draw /\ out = <<>> /\ st = "idle"
+           /\ reg = FreshReg /\ memo = <<>> /\ ncalls = 0 /\ hist = <<>>
+Finished(h) == Len(h) = SimLen => /\ Assert(ScriptOk(h), <<"script outside the domain", h>>)
+                                  /\ PrintT(ToJson([hist |-> [i \in DOMAIN h |-> Rec(h[i])]]))
 SimCall(c) == /\ t0' = c[1] /\ t1' = c[2] /\ bump' = c[3] /\ st' = "returned" /\ out' = <<"ok", <<>>>> /\ ncalls' = ncalls + 1
-              /\ UNCHANGED <<cur, reg, memo>>
+              /\ UNCHANGED <<reg, memo>>
 NextSim == /\ Len(hist) < SimLen
-           /\ LET c == RandomElement(SCalls)  e == RandomElement(SEdits)  h == RandomElement(Mutations) IN
-              \/ SimCall(c) /\ hist' = Append(hist, <<"call", c, RealsFor(c, Len(hist))>>)
-              \/ SimCall(c) /\ hist' = Append(hist, <<"call", c, RealsFor(c, Len(hist) + 3)>>)
-              \/ EditCal(e) /\ hist' = Append(hist, <<"edit", e>>)
-              \/ st = "returned" /\ st' = "edited" /\ hist' = Append(hist, <<"mutate", h>>)
-                 /\ UNCHANGED <<t0, t1, bump, cur, out, reg, memo, ncalls>>
+           /\ cur' = Draw
+           /\ LET c == cur[1]  e == cur[2]  h == cur[3] IN
+              \/ SimCall(c) /\ hist' = Append(hist, <<"call", c, RealsFor(c, cur[4])>>)
+              \/ SimCall(c) /\ hist' = Append(hist, <<"call", c, RealsFor(c, cur[4] + 6)>>)
+              \/ /\ reg' = EditReg(reg, e) /\ hist' = Append(hist, <<"edit", e>>)
+                 /\ UNCHANGED <<t0, t1, bump, out, st, memo, ncalls>>
+              \/ /\ st = "returned" /\ st' = "edited" /\ hist' = Append(hist, <<"mutate", h>>)
+                 /\ UNCHANGED <<t0, t1, bump, out, reg, memo, ncalls>>
            /\ Finished(hist')
 =============================================================================
